@@ -1135,7 +1135,7 @@ class ContainerEngine:
         cfg = {"prop": prop}
         sh = T.Shadow()
         ms = MetaShadow()
-        vgen = T.ValueGen(rng["values"], kinds=["i", "f", "s", "su", "y", "v", "a", "e"] + (["a", "a2", "a"] if prop == "C15" else []))
+        vgen = T.ValueGen(rng["values"], kinds=["i", "f", "s", "su", "y", "v", "a", "e", "ao"] + (["a", "a2", "a"] if prop == "C15" else []))
         dgen = T.DataGen(g, exotic=g.choice([0.0, 0.1, 0.3]), max_nodes=g.choice([6, 10, 15]), vgen=vgen, weights={"set_attr": 6, "del_attr": 2, "copy": 12, "move": 10, "del": 16})
         w = {"data": 40, "meta_set": 22, "meta_del": 6, "meta_get": 4, "query": 5, "boundary": 7, "reopen": 3, "pack": 3, "reserved": 3, "actor": 0, "merge": 2}
         if prop == "C07":
